@@ -1070,6 +1070,17 @@ pub fn c20_e2e(bin: &str, seed: u64, sessions: u64, long_sessions: u64) -> E2eRe
                         acc.lock().unwrap().v("R20a|e2e-height-used-not-max-told", b);
                     }
                 }
+                if long && i % 2 == 1 {
+                    // another payment is sitting in a pay command that does not return during the
+                    // whole poll interval: the poll must not wait for it
+                    let invs = new_invoice(&mut rng, Some(1_000_000), Hints::None);
+                    let hxs = hex::encode(invs.hash);
+                    s.preimages.insert(hxs.clone(), invs.preimage);
+                    s.stuck.push((hxs, "pay"));
+                    s.send_doc(&hook("stuck", tramp_request(&invs, 77, 1_005_000, 1_005_000, told_max + pd + 500, told_max)), 0);
+                    s.pump_until(|s| !s.held.is_empty() || s.out_eof, Duration::from_secs(10));
+                    acc.lock().unwrap().class(format!("payment stuck in pay during the poll interval: {}", !s.held.is_empty()));
+                }
                 if long {
                     // notifications lost: the node's height rises silently; one poll interval later
                     // the plugin must have caught up through getinfo
